@@ -499,6 +499,9 @@ def decide_from_corr(prop, tier, seed):
         "samples": [cl[v["id"]] for v in mine if prop in v["nt"]][:3] or [cl[v["id"]] for v in mine][:3],
         "traces_validated_against_impl": len(mine),
         "disagreements_checked": len(bad),
+        # model-internal differentials (length independence; stage-by-stage agreement with Spec.v): testing of the
+        # pinned statements, independent of the implementation
+        "model_internal_disagreements": sum(1 for v in mine if any(x.startswith("model.") for x in v["diff"])),
         "generator_distribution": meta.get("gen_stats", {}),
         "obligations": ps["obligations"], "discharged": ps["discharged"],
         "checker_cmd": "cd /verif/coq && coq_makefile -f _CoqProject -o Makefile && make (coqc 8.16.1, full .vo build); Print Assumptions per theorem",
